@@ -100,52 +100,53 @@ Proof.
     destruct (IH _ _ _ H); auto. right; right; assumption.
 Qed.
 
-Lemma existsb_upd_running (l : list child) : forall i c x,
-  nth_error l i = Some c -> is_running x = true ->
-  existsb is_running l = true -> existsb is_running (upd l i x) = true.
+Lemma existsb_upd_alive (l : list child) : forall i c x,
+  nth_error l i = Some c -> is_alive x = true ->
+  existsb is_alive l = true -> existsb is_alive (upd l i x) = true.
 Proof.
   induction l as [|y t IH]; intros [|i] c x Hn Hx He; cbn in *; try discriminate.
   - rewrite Hx. reflexivity.
-  - destruct (is_running y); [reflexivity|]. cbn in *. eapply IH; eauto.
+  - destruct (is_alive y); [reflexivity|]. cbn in *. eapply IH; eauto.
 Qed.
 
 Lemma kwait_none_intro k t :
   match t with
-  | TPid j => exists c w, nth_error (kids k) j = Some c /\ cs c = Running w
-  | TAny => (forall c, In c (kids k) -> is_zombie c = false) /\ existsb is_running (kids k) = true
+  | TPid j => exists c, nth_error (kids k) j = Some c /\ is_alive c = true /\ has_news_c c = false
+  | TAny => (forall c, In c (kids k) -> has_news_c c = false) /\ existsb is_alive (kids k) = true
   end -> kwait k t = (WNone, k).
 Proof.
   unfold kwait. destruct t as [j|].
-  - intros [c [w [Hn Hc]]]. rewrite Hn, Hc. reflexivity.
+  - intros [c [Hn [Ha Hc]]]. rewrite Hn, Hc, Ha. reflexivity.
   - intros [Hz Hr]. rewrite (find_from_none_inv _ _ 0 Hz), Hr. reflexivity.
 Qed.
 
-(* a child that only does local work does not change what wait says *)
-Lemma kwait_none_work k t i c w :
-  nth_error (kids k) i = Some c -> cs c = Running (S w) ->
+(* replacing a live child by a live one with the same "unreported change"
+   flag does not change a "none yet" answer of wait *)
+Lemma kwait_none_replace k t i c c' :
+  nth_error (kids k) i = Some c -> is_alive c = true -> is_alive c' = true ->
+  has_news_c c' = has_news_c c ->
   fst (kwait k t) = WNone ->
-  fst (kwait (set_kids k (upd (kids k) i (mkChild (Running w) (code c) (reaps c)))) t) = WNone.
+  fst (kwait (set_kids k (upd (kids k) i c')) t) = WNone.
 Proof.
-  intros Hn Hc Hw.
+  intros Hn Ha Ha' Hnews Hw.
   destruct (kwait k t) as [r k'] eqn:E. cbn [fst] in Hw. subst r.
   apply kwait_none in E. destruct E as [_ E].
   rewrite kwait_none_intro; [reflexivity|].
   unfold set_kids; cbn [kids].
   destruct t as [j|].
-  - destruct E as [d [v [Hd Hv]]].
+  - destruct E as [d [Hd [Hda Hdn]]].
     rewrite (nth_error_upd _ i j _ c Hn).
     destruct (Nat.eqb_spec i j) as [->|Hne]; [|eauto].
-    eexists; eexists; split; [reflexivity|]. reflexivity.
+    rewrite Hn in Hd. apply Some_inj in Hd. subst d.
+    exists c'. split; [reflexivity|]. split; [assumption|]. congruence.
   - destruct E as [Hz Hr]. split.
-    + intros d Hd. apply in_upd in Hd. destruct Hd as [->|Hd]; [reflexivity | auto].
-    + eapply existsb_upd_running; eauto.
+    + intros d Hd. apply in_upd in Hd. destruct Hd as [->|Hd]; [|auto].
+      rewrite Hnews. apply Hz. eapply nth_error_In; eauto.
+    + eapply existsb_upd_alive; eauto.
 Qed.
 
 (* ------------------------------------------------------------------------ *)
 (* facts that depend on the list of children only *)
-
-Lemma kids_raise k : kids (raise_chld k) = kids k.
-Proof. unfold raise_chld, deliver. destruct (blocked k); [reflexivity|]. destruct (catching k); reflexivity. Qed.
 
 Lemma unreaped_at_kids k1 k2 j : kids k1 = kids k2 -> unreaped_at k1 j -> unreaped_at k2 j.
 Proof. unfold unreaped_at. intros ->. auto. Qed.
@@ -175,34 +176,14 @@ Proof.
   destruct (snd j); [destruct Hj; contradiction | assumption].
 Qed.
 
-Lemma child_step_shape k i k' :
-  child_step k i = Some k' ->
-  exists c c', nth_error (kids k) i = Some c /\ cs c <> Reaped /\ cs c' <> Reaped /\
-               code c' = code c /\ reaps c' = reaps c /\ kids k' = upd (kids k) i c' /\
-               ((exists w, cs c = Running (S w) /\ cs c' = Running w /\
-                           k' = set_kids k (upd (kids k) i c'))
-                \/ (cs c = Running 0 /\ cs c' = Zombie /\
-                    k' = raise_chld (set_kids k (upd (kids k) i c')))).
-Proof.
-  unfold child_step. destruct (nth_error (kids k) i) as [c|] eqn:Hn; [|discriminate].
-  destruct (cs c) as [[|w]| |] eqn:Hc; try discriminate; intros H; apply Some_inj in H; subst k'.
-  - exists c, (mkChild Zombie (code c) (reaps c)).
-    split; [reflexivity|]. split; [rewrite Hc; discriminate|]. split; [discriminate|].
-    split; [reflexivity|]. split; [reflexivity|]. split; [rewrite kids_raise; reflexivity|].
-    right. auto.
-  - exists c, (mkChild (Running w) (code c) (reaps c)).
-    split; [reflexivity|]. split; [rewrite Hc; discriminate|]. split; [discriminate|].
-    split; [reflexivity|]. split; [reflexivity|]. split; [reflexivity|].
-    left. exists w. auto.
-Qed.
-
 Lemma kwait_sig_irrelevant k1 k2 t :
   kids k1 = kids k2 -> fst (kwait k1 t) = fst (kwait k2 t).
 Proof.
-  intros H. unfold kwait. rewrite H. destruct t as [j|].
-  - destruct (nth_error (kids k2) j) as [c|]; [|reflexivity]. destruct (cs c); reflexivity.
-  - destruct (find_from is_zombie (kids k2) 0) as [[j c]|]; [reflexivity|].
-    destruct (existsb is_running (kids k2)); reflexivity.
+  intros H. unfold kwait, report. rewrite H. destruct t as [j|].
+  - destruct (nth_error (kids k2) j) as [c|]; [|reflexivity].
+    destruct (has_news_c c); [destruct (cs c); reflexivity|]. destruct (is_alive c); reflexivity.
+  - destruct (find_from has_news_c (kids k2) 0) as [[j c]|]; [destruct (cs c); reflexivity|].
+    destruct (existsb is_alive (kids k2)); reflexivity.
 Qed.
 
 Lemma raise_sig_ok k l a : sig_ok k a -> sig_ok (raise_chld (set_kids k l)) a.
@@ -216,54 +197,115 @@ Proof.
     try (specialize (H2 eq_refl); discriminate).
 Qed.
 
-Lemma child_step_inv s i k' :
-  Inv s -> child_step (kn s) i = Some k' -> Inv (set_at s k' (at_ s)).
+Definition builtin_ok (a : pc) (jb : list (nat * option N)) : Prop :=
+  match a with
+  | PWait _ _ (KBuiltin _) => exists i, In (i, None) jb
+  | _ => True
+  end.
+
+(* one child that is not reaped is replaced by another one that is not reaped
+   (same exit status, same report count); the job list stays *)
+Lemma inv_replace k k' pr pr' a a' st st' lb lb' jb tr tr' i c c' :
+  Inv (mkState k pr a st lb jb tr) ->
+  nth_error (kids k) i = Some c -> cs c <> Reaped -> cs c' <> Reaped ->
+  code c' = code c -> reaps c' = reaps c -> kids k' = upd (kids k) i c' ->
+  pc_shape_ok a' -> sig_ok k' a' -> news_ok k' a' -> members a' = members a -> builtin_ok a' jb ->
+  Inv (mkState k' pr' a' st' lb' jb tr').
 Proof.
-  intros [Hre Hsh Hsig Hnews Hnd Hmem Hjnd Hjobs Hb Hrest] Hst.
-  destruct (child_step_shape _ _ _ Hst) as [c [c' [Hn [Hc [Hc' [Hcode [Hreaps [Hk Hcase]]]]]]]].
-  assert (Hun : forall j, unreaped_at k' j <-> unreaped_at (kn s) j)
-    by (intros j; eapply (unreaped_at_upd (kids (kn s)) (kn s) i c c'); eauto).
-  constructor; unfold set_at; cbn [kn at_ jobs].
-  - (* reaps *)
-    rewrite Hk. apply Forall_upd; [assumption|].
+  intros [Hre Hsh Hsig Hnews Hnd Hmem Hjnd Hjobs Hb Hrest] Hn Hc Hc' Hcode Hreaps Hk Hsh' Hsig' Hnews' Hm Hb'.
+  cbn [kn at_ jobs] in *.
+  assert (Hun : forall j, unreaped_at k' j <-> unreaped_at k j)
+    by (intros j; eapply (unreaped_at_upd (kids k) k i c c'); eauto).
+  constructor; cbn [kn at_ jobs]; auto.
+  - rewrite Hk. apply Forall_upd; [assumption|].
     pose proof (proj1 (Forall_forall _ _) Hre c (nth_error_In _ _ Hn)) as Hrc.
     unfold reaps_ok in *. rewrite Hreaps, Hrc.
     destruct (cs c); try contradiction; destruct (cs c'); try contradiction; reflexivity.
-  - assumption.
-  - (* signals *)
-    destruct Hcase as [[w [_ [_ ->]]] | [_ [_ ->]]]; [exact Hsig|].
-    apply raise_sig_ok. exact Hsig.
-  - (* news *)
-    destruct (at_ s) as [| | m t c0| | | |]; try exact I.
-    destruct m; try exact I; cbn [news_ok sig_ok] in *.
-    + (* SEnter: SIGCHLD is blocked *)
-      destruct Hsig as [Hbl [Hca Hcg]].
-      destruct Hcase as [[w [Hcw [Hcw' ->]]] | [_ [_ ->]]].
-      * destruct Hnews as [Hp|Hw]; [left; exact Hp|]. right.
-        rewrite Hcw' in *. destruct c' as [x y z]. cbn in *. subst.
-        eapply kwait_none_work; eauto.
-      * left. unfold raise_chld, set_kids; cbn [blocked]. rewrite Hbl. reflexivity.
-    + (* SBlocked: SIGCHLD is delivered at once *)
-      destruct Hsig as [Hbl [Hca Hp]].
-      destruct Hcase as [[w [Hcw [Hcw' ->]]] | [_ [_ ->]]].
-      * destruct Hnews as [Hg|Hw]; [left; exact Hg|]. right.
-        rewrite Hcw' in *. destruct c' as [x y z]. cbn in *. subst.
-        eapply kwait_none_work; eauto.
-      * left. unfold raise_chld, deliver, set_kids; cbn [blocked catching]. rewrite Hbl, Hca.
-        cbn [caught]. lia.
-  - assumption.
-  - intros j Hj. destruct (Hmem j Hj) as [H1 H2]. split; [apply Hun; assumption | assumption].
-  - assumption.
-  - eapply Forall_impl; [|exact Hjobs]. intros j Hj. eapply (job_ok_upd (kids (kn s)) (kn s) i c c'); eauto.
-  - assumption.
-  - intros j Hj. apply Hrest. apply Hun. assumption.
+  - rewrite Hm. assumption.
+  - rewrite Hm. intros j Hj. destruct (Hmem j Hj) as [H1 H2]. split; [apply Hun; assumption | assumption].
+  - eapply Forall_impl; [|exact Hjobs]. intros j Hj. eapply (job_ok_upd (kids k) k i c c'); eauto.
+  - rewrite Hm. intros j Hj. apply Hrest. apply Hun. assumption.
+Qed.
+
+Lemma sig_ok_kids k l a : sig_ok (set_kids k l) a <-> sig_ok k a.
+Proof. destruct a as [| | m t c0| | | |]; try destruct m; cbn; tauto. Qed.
+
+Lemma state_eta (s : state) :
+  s = mkState (kn s) (prog s) (at_ s) (status s) (lastbg s) (jobs s) (trace s).
+Proof. destruct s; reflexivity. Qed.
+
+(* the effect of a signal keeps the invariant *)
+Lemma signal_inv s sg t :
+  Inv s -> Inv (set_at s (k_signal (kn s) sg t) (at_ s)).
+Proof.
+  intros HI. unfold k_signal.
+  assert (Hsame : Inv (set_at s (kn s) (at_ s))) by (rewrite (state_eta s) in HI |- *; exact HI).
+  destruct (nth_error (kids (kn s)) t) as [c|] eqn:Hn; [|exact Hsame].
+  assert (Hgo : forall c', cs c <> Reaped -> cs c' <> Reaped -> is_alive c = true -> is_alive c' = true ->
+            code c' = code c -> reaps c' = reaps c ->
+            Inv (set_at s (raise_chld (set_kids (kn s) (upd (kids (kn s)) t c'))) (at_ s))).
+  { intros c' Hc Hc' Ha Ha' Hcode Hreaps. rewrite (state_eta s) in HI. unfold set_at.
+    pose proof HI as [_ Hsh Hsig Hnews _ _ _ _ Hb _]. cbn [kn at_ jobs] in *.
+    refine (inv_replace _ _ _ _ _ _ _ _ _ _ _ _ _ t c c' HI Hn Hc Hc' Hcode Hreaps _ _ _ _ _ _).
+    - rewrite kids_raise. reflexivity.
+    - assumption.
+    - apply raise_sig_ok. assumption.
+    - (* a SIGCHLD is raised: pending or caught *)
+      destruct (at_ s) as [| | m tt c0| | | |]; try exact I.
+      destruct m; try exact I; cbn [news_ok sig_ok] in *; left;
+        destruct Hsig as [H1 [H2 H3]];
+        unfold raise_chld, deliver, set_kids; cbn [blocked catching]; rewrite H1, ?H2; cbn [pending caught]; auto; lia.
+    - reflexivity.
+    - assumption. }
+  destruct sg; destruct (cs c) eqn:Hc; try exact Hsame.
+  - apply Hgo; cbn; auto; try congruence; try discriminate. unfold is_alive; rewrite Hc; reflexivity.
+  - apply Hgo; cbn; auto; try congruence; try discriminate. unfold is_alive; rewrite Hc; reflexivity.
+Qed.
+
+Lemma child_step_inv s i k' :
+  Inv s -> child_step (kn s) i = Some k' -> Inv (set_at s k' (at_ s)).
+Proof.
+  intros HI Hst. unfold child_step in Hst.
+  destruct (nth_error (kids (kn s)) i) as [c|] eqn:Hn; [|discriminate].
+  pose proof HI as HI0. rewrite (state_eta s) in HI0.
+  pose proof HI as [_ Hsh Hsig Hnews _ _ _ _ Hb _].
+  assert (Hadv : forall r,
+            cs c = Running (AWork :: r) \/ (exists sg t, cs c = Running (AKill sg t :: r)) ->
+            Inv (set_at s (set_kids (kn s) (upd (kids (kn s)) i (mkChild (Running r) (code c) (reaps c) (chg c))))
+                        (at_ s))).
+  { intros r Hc. unfold set_at.
+    assert (Hcs : cs c <> Reaped /\ is_alive c = true)
+      by (unfold is_alive; destruct Hc as [Hc|[sg [t Hc]]]; rewrite Hc; split; [discriminate|reflexivity| discriminate | reflexivity]).
+    destruct Hcs as [Hc1 Hc2].
+    refine (inv_replace _ _ _ _ _ _ _ _ _ _ _ _ _ i c (mkChild (Running r) (code c) (reaps c) (chg c))
+              HI0 Hn Hc1 _ _ _ _ _ _ _ _ _); cbn [cs code reaps kids set_kids];
+      [> discriminate | reflexivity | reflexivity | reflexivity | assumption
+       | apply sig_ok_kids; assumption | | reflexivity | assumption ].
+    destruct (at_ s) as [| | m tt c0| | | |]; try exact I.
+      destruct m; try exact I; cbn [news_ok] in *; (destruct Hnews as [Hp|Hw]; [left; exact Hp|]); right;
+        apply (kwait_none_replace (kn s) tt i c); auto;
+        unfold has_news_c; cbn [cs chg]; destruct Hc as [Hc|[sg [t Hc]]]; rewrite Hc; reflexivity. }
+  destruct (cs c) as [[|[|sg t] r]| | |] eqn:Hc; try discriminate; apply Some_inj in Hst; subst k'.
+  - (* exit *)
+    unfold set_at.
+    refine (inv_replace _ _ _ _ _ _ _ _ _ _ _ _ _ i c (mkChild Zombie (code c) (reaps c) false)
+              HI0 Hn _ _ _ _ _ _ _ _ _ _); cbn [cs code reaps];
+      [> rewrite Hc; discriminate | discriminate | reflexivity | reflexivity
+       | rewrite kids_raise; reflexivity | assumption | apply raise_sig_ok; assumption | | reflexivity | assumption ].
+    destruct (at_ s) as [| | m tt c0| | | |]; try exact I.
+      destruct m; try exact I; cbn [news_ok sig_ok] in *; left;
+        destruct Hsig as [H1 [H2 H3]];
+        unfold raise_chld, deliver, set_kids; cbn [blocked catching]; rewrite H1, ?H2; cbn [pending caught]; auto; lia.
+  - apply Hadv. left. reflexivity.
+  - specialize (Hadv r (or_intror (ex_intro _ sg (ex_intro _ t eq_refl)))).
+    exact (signal_inv _ sg t Hadv).
 Qed.
 
 (* ------------------------------------------------------------------------ *)
 (* fork *)
 
 Lemma fork_kids k w st :
-  kids (fst (k_fork k w st)) = kids k ++ [mkChild (Running w) st 0] /\
+  kids (fst (k_fork k w st)) = kids k ++ [mkChild (Running w) st 0 false] /\
   snd (k_fork k w st) = length (kids k) /\
   catching (fst (k_fork k w st)) = catching k /\ blocked (fst (k_fork k w st)) = blocked k /\
   pending (fst (k_fork k w st)) = pending k /\ caught (fst (k_fork k w st)) = caught k.
@@ -448,12 +490,6 @@ Qed.
 (* ------------------------------------------------------------------------ *)
 (* parent steps *)
 
-Definition builtin_ok (a : pc) (jb : list (nat * option N)) : Prop :=
-  match a with
-  | PWait _ _ (KBuiltin _) => exists i, In (i, None) jb
-  | _ => True
-  end.
-
 (* a step that changes neither the children nor the job list *)
 Lemma inv_same_kids k k' pr pr' a a' st st' lb lb' jb tr tr' :
   Inv (mkState k pr a st lb jb tr) ->
@@ -506,7 +542,7 @@ Proof.
   - eapply inv_same_kids; eauto; cbn; auto.
   - (* CAsync *)
     destruct (fork_kids k w x) as [Hk [Hi _]].
-    cbn [k_fork]. change (set_kids k (kids k ++ [mkChild (Running w) x 0])) with (fst (k_fork k w x)).
+    cbn [k_fork]. change (set_kids k (kids k ++ [mkChild (Running w) x 0 false])) with (fst (k_fork k w x)).
     constructor; cbn [kn at_ jobs members].
     + rewrite Hk. apply Forall_app. split; [assumption|]. constructor; [reflexivity|constructor].
     + exact I.
@@ -518,7 +554,7 @@ Proof.
       intros Hin. pose proof (jobs_lt _ _ _ Hjobs Hin). lia.
     + apply Forall_app. split.
       * eapply Forall_impl; [|exact Hjobs]. intros j Hj. apply job_ok_fork. assumption.
-      * constructor; [|constructor]. exists (mkChild (Running w) x 0). cbn [fst snd].
+      * constructor; [|constructor]. exists (mkChild (Running w) x 0 false). cbn [fst snd].
         rewrite Hk. rewrite nth_error_app2 by lia. rewrite Nat.sub_diag. split; [reflexivity|discriminate].
     + exact I.
     + intros j Hj. apply unreaped_at_fork in Hj. left. rewrite map_app, in_app_iff. cbn [map fst In].
@@ -542,7 +578,7 @@ Proof.
     + eapply inv_same_kids; eauto; cbn; auto.
   - apply Some_inj in Hs; subst s'. unfold set_at; cbn [kn prog at_ status lastbg jobs trace].
     destruct (fork_kids k w x) as [Hk [Hi _]].
-    cbn [k_fork]. change (set_kids k (kids k ++ [mkChild (Running w) x 0])) with (fst (k_fork k w x)).
+    cbn [k_fork]. change (set_kids k (kids k ++ [mkChild (Running w) x 0 false])) with (fst (k_fork k w x)).
     constructor; cbn [kn at_ jobs members].
     + rewrite Hk. apply Forall_app. split; [assumption|]. constructor; [reflexivity|constructor].
     + exact I.
@@ -610,7 +646,30 @@ Proof.
   intros HI Hs. unfold parent_step in Hs; cbn [kn prog at_ status lastbg jobs trace] in Hs.
   pose proof HI as [Hre Hsh Hsig Hnews Hnd Hmem Hjnd Hjobs Hb Hrest]. cbn [kn at_ jobs sig_ok] in *.
   destruct Hsig as [Hbl [Hca Hcg]].
-  destruct (kwait k t) as [[i x| |] k'] eqn:Ew.
+  assert (Hseen : forall i r, (r = WStop i \/ r = WCont i) -> forall k', kwait k t = (r, k') ->
+            forall a', members a' = members (PWait SPoll t c) -> pc_shape_ok a' -> builtin_ok a' jb ->
+              sig_ok k' a' -> news_ok k' a' ->
+              Inv (mkState k' pr a' st lb jb tr)).
+  { intros i r Hr k' Ew a' Hm Hsh' Hb' Hsig' Hnews'.
+    destruct (kwait_seen _ _ _ _ i Ew Hr) as [ch [Hn [Ha [Hg [Hk _]]]]].
+    assert (Hnr : cs ch <> Reaped) by (unfold is_alive in Ha; destruct (cs ch); discriminate).
+    refine (inv_replace _ _ _ _ _ _ _ _ _ _ _ _ _ i ch (seen ch) HI Hn Hnr _ _ _ _ Hsh' Hsig' Hnews' Hm Hb');
+      cbn [seen cs code reaps]; auto. rewrite Hk. reflexivity. }
+  destruct (kwait k t) as [[i x|i|i| |] k'] eqn:Ew.
+  2: { assert (Hr : WStop i = WStop i \/ WStop i = WCont i) by (left; reflexivity).
+       destruct (kwait_seen _ _ _ _ i Ew Hr) as [ch [_ [_ [_ [Hk _]]]]].
+       destruct c as [more fin pf ra|t0]; destruct t as [tp|]; try contradiction;
+         apply Some_inj in Hs; subst s'; unfold set_at;
+         cbn [kn prog at_ status lastbg jobs trace];
+         apply (Hseen i _ Hr k' eq_refl); try reflexivity; try exact I; try assumption;
+         try (rewrite Hk; cbn [sig_ok set_kids blocked catching pending caught]; rewrite Hbl, Hcg; auto). }
+  2: { assert (Hr : WCont i = WStop i \/ WCont i = WCont i) by (right; reflexivity).
+       destruct (kwait_seen _ _ _ _ i Ew Hr) as [ch [_ [_ [_ [Hk _]]]]].
+       destruct c as [more fin pf ra|t0]; destruct t as [tp|]; try contradiction;
+         apply Some_inj in Hs; subst s'; unfold set_at;
+         cbn [kn prog at_ status lastbg jobs trace];
+         apply (Hseen i _ Hr k' eq_refl); try reflexivity; try exact I; try assumption;
+         try (rewrite Hk; cbn [sig_ok set_kids blocked catching pending caught]; rewrite Hbl, Hcg; auto). }
   - (* wait reported child i *)
     destruct (kwait_some _ _ _ _ _ Ew) as [ch [Hn [Hz [Hx [Hk Ht]]]]]. subst k' x.
     destruct c as [more fin pf ra|t0].
@@ -743,10 +802,23 @@ Lemma parent_reap_inv k pr st lb jb tr s' :
 Proof.
   intros HI Hs. unfold parent_step in Hs; cbn [kn prog at_ status lastbg jobs trace] in Hs.
   pose proof HI as [Hre Hsh Hsig Hnews Hnd Hmem Hjnd Hjobs Hb Hrest]. cbn [kn at_ jobs sig_ok members] in *.
-  destruct (kwait k TAny) as [[i x| |] k'] eqn:Ew; apply Some_inj in Hs; subst s'.
+  assert (Hseen : forall i r, (r = WStop i \/ r = WCont i) -> forall k', kwait k TAny = (r, k') ->
+            Inv (mkState k' pr PReap st lb jb tr)).
+  { intros i r Hr k' Ew.
+    destruct (kwait_seen _ _ _ _ i Ew Hr) as [ch [Hn [Ha [Hg [Hk _]]]]].
+    assert (Hnr : cs ch <> Reaped) by (unfold is_alive in Ha; destruct (cs ch); discriminate).
+    refine (inv_replace _ _ _ _ _ _ _ _ _ _ _ _ _ i ch (seen ch) HI Hn Hnr _ _ _ _ _ _ _ _ _);
+      cbn [seen cs code reaps members sig_ok news_ok pc_shape_ok builtin_ok]; auto.
+    - rewrite Hk. reflexivity.
+    - rewrite Hk. cbn [set_kids blocked catching pending caught]. assumption. }
+  destruct (kwait k TAny) as [[i x|i|i| |] k'] eqn:Ew; apply Some_inj in Hs; subst s'.
   - destruct (kwait_some _ _ _ _ _ Ew) as [ch [Hn [Hz [Hx [Hk Ht]]]]]. subst k' x.
     refine (inv_after_reap _ _ _ _ _ _ _ _ _ _ _ _ _ HI Hn Hz eq_refl _ _ _ _ _ _ _);
       cbn [members sig_ok news_ok pc_shape_ok builtin_ok]; auto; try constructor; intros j [].
+  - unfold set_at; cbn [kn prog at_ status lastbg jobs trace].
+    exact (Hseen i (WStop i) (or_introl eq_refl) k' eq_refl).
+  - unfold set_at; cbn [kn prog at_ status lastbg jobs trace].
+    exact (Hseen i (WCont i) (or_intror eq_refl) k' eq_refl).
   - unfold set_at; cbn [kn prog at_ status lastbg jobs trace].
     eapply inv_same_kids; eauto; cbn; auto.
   - unfold set_at; cbn [kn prog at_ status lastbg jobs trace].
